@@ -188,6 +188,18 @@ def _check(case):
     for i in (0, 1):
         require(relerr(pw[i], pp[i]) <= tol, "partial pressure %d differs between mass-fraction (%r) and mole-fraction (%r) input",
                 i + 1, float(pw[i]), float(pp[i]))
+    # the same NUMBER in the other basis, asked immediately afterwards (a memo keyed on the number only would answer wrongly)
+    from ..refmodels import to_molar as _to_molar
+
+    call(get_partial_pressures, t, mix, build.composition(x, "molar"), mdl)
+    alias = call(get_partial_pressures, t, mix, build.composition(x, "weight"), mdl)
+    xa = _to_molar(x, m1, m2)
+    ga = gam(xa)
+    require(not is_raised(alias), "get_partial_pressures(mass fraction %r) raised %r", x, alias)
+    for i, xi in ((0, xa), (1, 1 - xa)):
+        require(relerr(alias[i], xi * ga[i] * ps[i]) <= 1e-9 + 1e-13 / min(xa, 1 - xa),
+                "partial pressure %d for the mass fraction %r asked right after the mole fraction %r: %r, but x*gamma*Psat at the "
+                "equivalent mole fraction %r is %r", i + 1, x, x, float(alias[i]), xa, xi * ga[i] * ps[i])
     gw = calculate_activity_coefficients(t, mix, build.composition(w, "weight"), mdl)
     for i in (0, 1):
         require(relerr(gw[i], g0[i]) <= tol, "gamma_%d differs between mass- and mole-fraction input: %r vs %r", i + 1, float(gw[i]), g0[i])
